@@ -3,6 +3,7 @@
 mod exec;
 mod explore;
 mod handles;
+mod heap;
 mod payload;
 mod rt;
 
@@ -13,22 +14,9 @@ use std::collections::{HashMap, HashSet};
 use std::hash::{Hash, Hasher};
 use std::io::{BufRead, Write};
 
-use std::alloc::{GlobalAlloc, Layout, System};
-use std::sync::atomic::{AtomicIsize, Ordering as AO};
+use heap::{Counting, LIVE_BYTES};
+use std::sync::atomic::Ordering as AO;
 
-/// Counting allocator: live heap bytes of the whole process (sampled at churn checkpoints)
-struct Counting;
-static LIVE_BYTES: AtomicIsize = AtomicIsize::new(0);
-unsafe impl GlobalAlloc for Counting {
-    unsafe fn alloc(&self, l: Layout) -> *mut u8 {
-        LIVE_BYTES.fetch_add(l.size() as isize, AO::Relaxed);
-        System.alloc(l)
-    }
-    unsafe fn dealloc(&self, p: *mut u8, l: Layout) {
-        LIVE_BYTES.fetch_sub(l.size() as isize, AO::Relaxed);
-        System.dealloc(p, l)
-    }
-}
 #[global_allocator]
 static GLOBAL: Counting = Counting;
 
